@@ -112,9 +112,12 @@ tcptran_pipe_stop(void *arg)
 	nni_aio_stop(&p->txaio);
 	nni_aio_stop(&p->negoaio);
 	nng_stream_stop(p->conn);
-	nni_mtx_lock(&ep->mtx);
-	nni_list_node_remove(&p->node);
-	nni_mtx_unlock(&ep->mtx);
+	// no endpoint yet if the pipe could not be created completely
+	if (ep != NULL) {
+		nni_mtx_lock(&ep->mtx);
+		nni_list_node_remove(&p->node);
+		nni_mtx_unlock(&ep->mtx);
+	}
 }
 
 static int
